@@ -23,13 +23,14 @@ def validName (s : Scheme) (name : List Char) : Bool :=
   | .tag => match splitOn ':' name with
     | [r, t] => validRepo r && validTag t
     | _ => false
-  | .shard => validShardName name
+  | .shard => validShardNameBytes name
   | .ident => validIdentName name
 
 def nameTok (r : NameResult) (impl : String) : String :=
   match r with
   | .ok n => "ok:" ++ strTok (S n)
   | .err => "err"
+  | .panic => "panic"
   | .unsupported => impl
 
 def step (_ : Unit) (kind : String) (args impl : List String) : Option (Unit × StepOut) :=
@@ -40,9 +41,15 @@ def step (_ : Unit) (kind : String) (args impl : List String) : Option (Unit × 
     let root ← (kv? rest "root").bind str?
     let name ← (kv? rest "name").bind str?
     let implBack := (kv? impl "back").getD "-"
-    let valid := validName sc name.toList
+    -- precondition of the regexp-based schemes: the base path is valid UTF-8 (else MustCompile panics)
+    let rootOk := sc = .ident ∨ validUTF8 (basePath sc root.toList)
+    let valid := validName sc name.toList ∧ rootOk
     let pf : List String :=
-      if valid then
+      if valid ∧ sc = .shard ∧ twoByteHead name.toList then
+        -- known finding: name[:2] is a single rune, the inverse's `..` needs two
+        (if implBack ≠ "ok:" ++ strTok name then
+          [s!"side=impl key=shard-nonascii-name root={kv? rest "root"} name={kv? rest "name"} came back as {implBack}"] else [])
+      else if valid then
         (if (kv? impl "blob").map (·.startsWith "ok:") ≠ some true then
           [s!"side=impl key=valid-name-rejected {kv? rest "scheme"} root={kv? rest "root"} name={kv? rest "name"}: {kv? impl "blob"}"]
         else if implBack = "panic" then
@@ -50,7 +57,7 @@ def step (_ : Unit) (kind : String) (args impl : List String) : Option (Unit × 
         else if implBack ≠ "ok:" ++ strTok name then
           [s!"side=impl key=name-roundtrip {kv? rest "scheme"} root={kv? rest "root"} name={kv? rest "name"} came back as {implBack}"]
         else [])
-      else if implBack = "panic" then
+      else if implBack = "panic" ∧ rootOk then
         [s!"side=impl key=name-from-path-panic {kv? rest "scheme"} root={kv? rest "root"} name={kv? rest "name"}"]
       else []
     match blobPath sc root.toList name.toList with
@@ -66,12 +73,13 @@ def step (_ : Unit) (kind : String) (args impl : List String) : Option (Unit × 
     let r := nameFromBlobPath sc root.toList bp.toList
     let i := impl.headD ""
     let m := nameTok r i
-    let pf := if impl = ["panic"] then [s!"side=impl key=name-from-path-panic {kv? rest "scheme"} root={kv? rest "root"} bp={kv? rest "bp"}"]
+    let rootOk := sc = .ident ∨ validUTF8 (basePath sc root.toList)
+    let pf := if impl = ["panic"] ∧ rootOk then [s!"side=impl key=name-from-path-panic {kv? rest "scheme"} root={kv? rest "root"} bp={kv? rest "bp"}"]
       else if m = i then []
       else if i.startsWith "ok:" ∧ m = "err" then [s!"side=impl key=path-accepts-malformed {kv? rest "scheme"} root={kv? rest "root"} bp={kv? rest "bp"} gave {i}"]
       else if i = "err" then [s!"side=impl key=path-rejects-wellformed {kv? rest "scheme"} root={kv? rest "root"} bp={kv? rest "bp"}: expected {m}"]
       else [s!"side=impl key=path-wrong-name {kv? rest "scheme"} root={kv? rest "root"} bp={kv? rest "bp"} gave {i}, expected {m}"]
-    let br := match r with | .ok _ => "name.ok" | .err => "name.err" | .unsupported => "name.unsupported"
+    let br := match r with | .ok _ => "name.ok" | .err => "name.err" | .unsupported => "name.unsupported" | .panic => "name.badutf8"
     pure ((), { obs := [nameTok r (impl.headD "")], branch := br, propfails := pf })
   | "join" :: elems => do
     let es ← elems.mapM str?
